@@ -34,7 +34,7 @@ use std::time::{Duration, SystemTime};
 pub const KIND_NAMES: &[&str] = &[
     "scalar", "hist", "dupField", "emptyName", "awsName", "missingDim", "dimIsMetric", "dimsNoSplit",
     "twoTs", "errValue", "edimsTwice", "split1", "split2", "entryDims", "unroutable", "sampled",
-    "badRate", "allNaN", "huge", "ioMid", "ioFirst",
+    "badRate", "allNaN", "huge",
 ];
 
 /// multi-megabyte payload shared by all `huge` entries
@@ -144,15 +144,6 @@ impl KEntry {
         }
     }
 
-    /// number of bytes after which the writer fails hard (None: never)
-    pub fn fail_after(&self) -> Option<usize> {
-        match self.kind.as_str() {
-            "ioMid" => Some(60),
-            "ioFirst" => Some(0),
-            _ => None,
-        }
-    }
-
     /// the entry has no timestamp of its own (the formatter uses the current time)
     pub fn no_timestamp(&self) -> bool {
         self.kind == "unroutable"
@@ -175,7 +166,7 @@ impl Entry for KEntry {
         let lat = [u(5 + s)];
         let latency = Met { obs: &lat, unit: MS, dims: none, flags: 0 };
         match self.kind.as_str() {
-            "scalar" | "ioMid" | "badRate" => {
+            "scalar" | "badRate" => {
                 w.timestamp(self.ts);
                 w.value("Operation", self.op.as_str());
                 w.value("Latency", &latency);
@@ -248,7 +239,7 @@ impl Entry for KEntry {
                 w.value("Latency", &latency);
                 w.value("PerKey", &Met { obs: &[u(3 + s)], unit: Unit::Count, dims: if s % 2 == 0 { k1v1 } else { k1v2 }, flags: 0 });
             }
-            "split2" | "ioFirst" => {
+            "split2" => {
                 w.config(&self.split);
                 w.timestamp(self.ts);
                 w.value("Operation", self.op.as_str());
@@ -532,22 +523,33 @@ impl Formatter {
         }
     }
 
-    /// Format one catalogue entry.
+    /// Format one catalogue entry into a writer that never fails.
     pub fn call(&mut self, k: &KEntry) -> CallResult {
-        if k.kind == "unroutable" {
-            self.call_entry(&MetriqueValidationError::new(&k.msg), None, None)
-        } else {
-            self.call_entry(k, k.rate(), k.fail_after())
-        }
+        self.call_limited(k, None)
     }
 
-    /// Format one catalogue entry into a writer that fails after `limit` bytes.
+    /// Format one catalogue entry into a writer that fails hard once `limit` bytes were accepted.
     pub fn call_limited(&mut self, k: &KEntry, limit: Option<usize>) -> CallResult {
         if k.kind == "unroutable" {
             self.call_entry(&MetriqueValidationError::new(&k.msg), None, limit)
         } else {
             self.call_entry(k, k.rate(), limit)
         }
+    }
+}
+
+/// Where a writer fault named by the model (first | mid | last) falls for an entry whose
+/// complete output is `reference`: a byte budget after which every write fails. "mid" is inside
+/// the first line and "last" inside the last line whichever order the lines are written in
+/// (split records come out in hash order): both are placed with the shortest line's length.
+pub fn fault_limit(fault: &str, reference: &[u8]) -> Option<usize> {
+    let shortest = reference.split_inclusive(|c| *c == b'\n').map(|l| l.len()).min().unwrap_or(0);
+    match fault {
+        "none" => None,
+        "first" => Some(0),
+        "mid" => Some((shortest / 2).max(1).min(reference.len())),
+        "last" => Some(reference.len().saturating_sub((shortest / 2).max(1))),
+        other => panic!("unknown fault {other}"),
     }
 }
 
